@@ -213,6 +213,22 @@ def gen_case(rng, schema=None, max_leaves=8, force=None):
                 nd[0] = rest.pop() if rest else None
         trees.append({"spec": spec, "rooted": rng.choice([True, False, None]),
                       "weight": rng.choice([None, None, 0.5, 2.0, 0.125, "3/8", "5/2"])})
+    # trees without any leaf taxon: every leaf anonymous (taxa, if any, only on internal nodes); in a list, all trees or only some
+    notax = rng.random() < 0.1
+    if notax:
+        which = [True] * ntrees if rng.random() < 0.6 else [rng.random() < 0.5 for _ in range(ntrees)]
+        for t, strip_it in zip(trees, which):
+            if not strip_it:
+                continue
+            for nd in spec_nodes(t["spec"]):
+                if not nd[3]:
+                    nd[0] = None
+            root = t["spec"]
+            if not root[3] and root[0] is None and not root[1] and root[2] is None:
+                root[2] = 1.0       # the lone blank node has no Newick text: give it a length
+        used = {nd[0] for t in trees for nd in spec_nodes(t["spec"]) if nd[0] is not None}
+        if not used and not force.get("labels") and rng.random() < 0.6:
+            labels = []             # an empty namespace
     ps, uu, pu = rng.choice(CONSISTENT) if rng.random() < 0.5 else CONSISTENT[0]
     wopts, ropts = {}, {}
     if schema != "nexml":
@@ -820,6 +836,19 @@ def corner_cases():
         out.append(simple_case(schema, ["A", "B"], spec=[None, None, None, [["A", None, None, []], [None, None, None, []], ["B", None, None, []]]]))
         out.append(simple_case(schema, ["A"], spec=[None, None, None, [[None, None, None, []], [None, None, None, []]]]))       # (,)
         out.append(simple_case(schema, ["A"], spec=[None, "r", None, [[None, None, None, []]]]))                                # ()r
+        for into in ("fresh", "source"):
+            for labs in ([], ["A"]):
+                c = simple_case(schema, labs, spec=[None, None, None, [[None, None, None, [[None, None, None, []], [None, None, None, []]]],
+                                                                        [None, None, None, []]]])          # ((,),);
+                c["into"] = into
+                out.append(c)
+        c = simple_case(schema, ["A", "B"], spec=[None, None, None, [["A", None, 1.0, [[None, None, None, []], [None, None, None, []]]],
+                                                                      [None, None, None, []]]],
+                        ropts={} if schema == "nexml" else {"suppress_internal_node_taxa": False})   # the only taxon sits on an internal node
+        out.append(c)
+        c = simple_case(schema, ["A", "B"])
+        c["trees"].append({"spec": [None, None, None, [[None, None, None, []], [None, None, 2.0, []]]], "rooted": True, "weight": None})
+        out.append(c)                                                                                     # a list: one tree with taxa, one without
         out.append(simple_case(schema, ["a=b", "a\\b"]))
         out.append(simple_case(schema, ["2", "1", "3"], spec=[None, None, None, [["3", None, 1, []], ["1", None, 2, []]]]))
         out.append(simple_case(schema, ["a_b", "c d", "e_f g"]))
